@@ -29,6 +29,8 @@ func (p *Pruner) check(x *Exec, s *State, cond string) bool {
 	var sb strings.Builder
 	sb.WriteString("(set-logic ALL)\n")
 	pre := x.c.P.render(b)
+	pre, unf := unfoldRecs(pre, b, 1)
+	b += unf
 	if strings.Contains(b, "Float64") || strings.Contains(pre, "Float64") {
 		sb.WriteString("(define-sort Float64 () (_ FloatingPoint 11 53))\n")
 	}
